@@ -62,7 +62,7 @@ func runSchedule(c *vctx, a *vAgent, g *gate, mode string, dflt uint, batch []*c
 	a.launch(hold)
 	select {
 	case <-g.ev:
-	case <-time.After(watchdog):
+	case <-time.After(30 * time.Second):
 		res.stuck = true
 		return res
 	}
@@ -79,25 +79,49 @@ func runSchedule(c *vctx, a *vAgent, g *gate, mode string, dflt uint, batch []*c
 		g.release <- true
 		var next gateEv
 		got := false
-		select {
-		case next = <-g.ev:
-			got = true
-		case <-time.After(watchdog):
+		// The next hasher call, or quiescence: every request answered and no further hasher call for
+		// `watchdog` (an internal upgrade follows its login at once on the idle dispatcher). "Stuck"
+		// is decided by what the dispatcher is DOING, not by a stop-watch: it is blocked in a channel
+		// send of its own (outside the gate) with requests unanswered — or nothing moved for a minute.
+		hard := time.Now().Add(60 * time.Second)
+		var doneSince, wedgedSince time.Time
+		for !got {
+			select {
+			case next = <-g.ev:
+				got = true
+				continue
+			case <-time.After(5 * time.Millisecond):
+			}
+			collect(all)
+			alldone := true
+			for _, q := range all {
+				alldone = alldone && q.fin
+			}
+			if alldone {
+				if doneSince.IsZero() {
+					doneSince = time.Now()
+				}
+				if time.Since(doneSince) >= watchdog {
+					break
+				}
+				continue
+			}
+			if dispatcherWedged() {
+				if wedgedSince.IsZero() {
+					wedgedSince = time.Now()
+				}
+				if time.Since(wedgedSince) >= watchdog {
+					break
+				}
+			} else {
+				wedgedSince = time.Time{}
+			}
+			if time.Now().After(hard) {
+				break
+			}
 		}
 		collect(all)
 		if !got {
-			deadline := time.Now().Add(watchdog)
-			for time.Now().Before(deadline) {
-				collect(all)
-				alldone := true
-				for _, q := range all {
-					alldone = alldone && q.fin
-				}
-				if alldone {
-					break
-				}
-				time.Sleep(5 * time.Millisecond)
-			}
 			for _, q := range all {
 				if !q.fin {
 					res.stuck = true
@@ -220,6 +244,22 @@ func buildLabels(res *schedResult, mode string, caps map[string]int) {
 			res.executed = append(res.executed, "-")
 		}
 	}
+}
+
+// dispatcherWedged: some agent's dispatcher goroutine is blocked sending on a channel of the
+// agent's own (not parked in the harness gate, not hashing, not idle in its select).
+func dispatcherWedged() bool {
+	buf := make([]byte, 1<<18)
+	n := runtime.Stack(buf, true)
+	for _, blk := range strings.Split(string(buf[:n]), "\n\n") {
+		if strings.Contains(blk, "dispatchRequests") && !strings.Contains(blk, "gate).pass") {
+			head := strings.SplitN(blk, "\n", 2)[0]
+			if strings.Contains(head, "[chan send") {
+				return true
+			}
+		}
+	}
+	return false
 }
 
 func goroutineDump() string {
